@@ -413,7 +413,13 @@ fn master(plan: Plan, tier: &str) -> i32 {
     let exe = std::env::current_exe().expect("current exe");
     // work list: (unit index, shard)
     let mut work: Vec<(usize, (usize, usize))> = Vec::new();
+    // debugging aid: VERIF_ONLY=<substring> restricts the run to the units whose name contains it (such a run
+    // is not a verdict on the property and must not be pointed at the committed evidence directory)
+    let only = std::env::var("VERIF_ONLY").ok().filter(|s| !s.is_empty());
     for (i, u) in plan.units.iter().enumerate() {
+        if only.as_ref().is_some_and(|o| !u.name.contains(o.as_str())) {
+            continue;
+        }
         let s = u.split.max(1);
         for k in 0..s {
             work.push((i, (k, s)));
